@@ -1207,6 +1207,10 @@ func (fc *FnCtx) convert(x *ssa.Convert) Val {
 
 func (fc *FnCtx) execReturn(x *ssa.Return) {
 	fc.retBlocks = append(fc.retBlocks, fc.cur)
+	// vacuity: this return must not be provably unreachable from the assumptions made so far
+	fc.ordinals["vacuity:return"]++
+	fc.obls = append(fc.obls, &Obligation{Name: fmt.Sprintf("%s/vacuity:return#%d", fc.name, fc.ordinals["vacuity:return"]), Fn: fc.name, Kind: "vacuity", Props: fc.props,
+		Goal: not(fc.curReach), NAssume: len(fc.assumes), fc: fc, Expect: "sat", Text: "return is reachable under all assumptions (no contradiction)"})
 	env := fc.entryEnv()
 	env.heap = fc.heap
 	env.ghost = fc.ghost
@@ -1225,7 +1229,14 @@ func (fc *FnCtx) execReturn(x *ssa.Return) {
 		if en.Label != "" {
 			detail = en.Label
 		}
-		fc.oblige("post", detail, t, en.Props, "ensures "+en.Text, x.Pos())
+		parts := splitGoal(t)
+		for j, g := range parts {
+			d := detail
+			if len(parts) > 1 {
+				d = fmt.Sprintf("%s.%d", detail, j+1)
+			}
+			fc.oblige("post", d, g, en.Props, "ensures "+en.Text, x.Pos())
+		}
 	}
 	if fc.con.HasAssigns {
 		fc.checkFrame(x.Pos())
